@@ -130,8 +130,8 @@ META['C14'] = dict(
 )
 
 META['C17'] = dict(
-    text='Cross-build differential: the same tree compiled with the x86 feature macros undefined (generic C++ fallbacks) is loaded next to the default build; generated operands (400k quick / 100M thorough), programs '
-         '(320 / 24k, through the real interpreter loop of both builds) and (key,input,version) triples with dataset items and rounding-mode preservation are compared.',
+    text='Cross-build differential: the same tree compiled with the x86 feature macros undefined (generic C++ fallbacks) is loaded next to the default build; generated operands (1.6M quick / 100M thorough), programs '
+         '(640 / 24k, through the real interpreter loop of both builds) and (key,input,version) triples with dataset items and rounding-mode preservation are compared.',
     note='Trusted: undefining the macros reproduces the code a port without those features compiles; endianness-dependent fallbacks cannot be exercised on a little-endian host.',
     technique='differential property-based testing (rapidcheck) between two build configurations of the same tree',
 )
